@@ -1103,9 +1103,14 @@ class ChannelFactory:
                 # sys.exit() in a callback must not end the receiver thread
                 errortext = self.gateway._geterrortext(exc)
                 self.gateway._trace("exception during callback: %s" % errortext)
-                self.gateway._send(
-                    Message.CHANNEL_CLOSE_ERROR, id, dumps_internal(errortext)
-                )
+                try:
+                    self.gateway._send(
+                        Message.CHANNEL_CLOSE_ERROR, id, dumps_internal(errortext)
+                    )
+                except OSError:
+                    # the connection has gone meanwhile: there is nobody to
+                    # tell, but what has arrived is still to be handled
+                    pass
                 self._local_close(id, RemoteError(errortext))
 
     def _finished_receiving(self) -> None:
